@@ -232,33 +232,147 @@ Proof. exact repeat_n_times. Qed.
 Print Assumptions C17_repeat_step_n_times.
 
 (* ---- run segmentation through a saved state --------------------------------------------------------------------- *)
-(* after ANY history l1 the state is saved at step t (extended_x / extended_v = what was reported at t); a fresh object loads it and
-   executes step t again and then any continuation l2: every state of the resumed run equals the state of the uninterrupted run at
-   the same step, up to the origin of the relative step counter *)
-Theorem C17_resume_equals_uninterrupted : forall (c : @config R) (p : @params R) (l1 : list (@input R)) (i : @input R) (l2 : list (@input R)),
-  let s := run Rops c p (init_state Rops) l1 in
-  i_running i = true -> tsf_error c s i = false -> (0 <= i_step i)%Z ->
-  List.Forall (fun j => i_running j = true /\ (i_step i < i_step j)%Z) l2 ->
+(* The state is saved after the awake step t of ANY state s (what is written, saved_xv = colvar::get_state_params, is what was
+   reported at t); a fresh object loads it and executes step t again, then any continuation: later steps, preceded by any number of
+   repetitions of the restart step at run boundaries, with or without a jump of the variable [the jump re-initialisation zeroes the
+   velocity as the initialisation does: fix-C17-2].  Every state of the resumed run equals the state of the uninterrupted run at the
+   same step, up to the origin of the relative step counter. *)
+Theorem C17_resume_equals_uninterrupted : forall (c : @config R) (p : @params R) (s : @state R) (i : @input R) (l : list (@input R)),
+  i_running i = true -> tsf_error c s i = false -> (0 <= i_step i)%Z -> cont_ok (i_step i) true l ->
   let s1 := step Rops c p s i in
-  trace Rops c p (restart_state Rops (s_x_rep s1) (s_v_rep s1)) (map (shift_input (i_step i)) (i :: l2))
-  = map (shift_state (i_step i)) (trace Rops c p s (i :: l2)).
-Proof. exact resume_after_any_history. Qed.
+  saved_xv Rops s1 (i_step i) = (s_x_rep s1, s_v_rep s1) /\
+  trace Rops c p (restart_state Rops (s_x_rep s1) (s_v_rep s1)) (map (shift_input (i_step i)) (i :: l))
+  = map (shift_state (i_step i)) (trace Rops c p s (i :: l)).
+Proof. exact resume_trace_cont. Qed.
 Print Assumptions C17_resume_equals_uninterrupted.
 
-(* FULL STATEMENT for a state saved at ANY step (false of the code when the variable has timeStepFactor f > 1 and the state is saved
-   between two slow steps): the resumed run reports at the next slow step what the uninterrupted run reports.
-   The saved extended_x/extended_v are the values reported at the last slow step t while the object already holds x_(t+f): the resumed
-   run is one slow step behind (witness: f = 2, saved after absolute step 1; replayed on the C++ by the check: known finding, together
-   with the spurious wake-up of the variable on the first step of the new object). *)
-Theorem C17_resume_between_slow_steps_refuted :
-  exists (c : @config R) (p : @params R) (i1 i2 : @input R),
-    free_cfg c /\ c_tsf c = 2%Z /\ consecutive (c_tsf c) 0 [i1; i2] /\
-    let s1 := step Rops c p (init_state Rops) i1 in
-    let s2 := step Rops c p s1 i2 in
-    let r2 := step Rops c p (restart_state Rops (s_x_rep s1) (s_v_rep s1)) (shift_input 1 i2) in
-    s_x_rep s2 = 1 /\ s_x_rep r2 = 0.
-Proof. exact resume_sleeping_refuted. Qed.
-Print Assumptions C17_resume_between_slow_steps_refuted.
+(* The state is saved at a relative step t at which a variable with timeStepFactor > 1 sleeps (last update before t): what is written
+   are the integrated values [fix-C17-2; the reported ones made the resumed run one slow step late]; the fresh object sleeps until the
+   next multiple of the factor and from there on reproduces the uninterrupted run state for state. *)
+Theorem C17_resume_between_slow_steps : forall (c : @config R) (p : @params R) (s : @state R) (t : Z) xe (i : @input R) (l : list (@input R)),
+  s_x_ext s = Some xe -> s_after_restart s = false -> (0 <= s_prev_ts s < t)%Z -> (t < i_step i)%Z ->
+  i_running i = true -> tsf_error c s i = false ->
+  List.Forall (fun j => i_running j = true /\ (i_step i < i_step j)%Z) l ->
+  saved_xv Rops s t = (xe, s_v_ext s) /\
+  trace Rops c p (restart_state Rops xe (s_v_ext s)) (map (shift_input t) (i :: l))
+  = map (shift_state t) (trace Rops c p s (i :: l)).
+Proof. exact resume_asleep_trace. Qed.
+Print Assumptions C17_resume_between_slow_steps.
+
+(* ---- sleeping steps of a variable with timeStepFactor > 1 -------------------------------------------------------- *)
+(* a module step on which the variable sleeps applies no force, contributes no energy and leaves the object alone *)
+Theorem C17_sleeping_step_inert : forall (c : @config R) (p : @params R) (it0 : Z) (s : @state R) (i : @input R),
+  awake_at c it0 i = false ->
+  mstep Rops c p it0 s i = sleep Rops s /\ menergy Rops c it0 i (mstep Rops c p it0 s i) = 0.
+Proof. exact mstep_asleep. Qed.
+Print Assumptions C17_sleeping_step_inert.
+
+Theorem C17_sleep_keeps_state : forall s : @state R,
+  let s' := sleep Rops s in
+  s_f s' = 0 /\ s_fr s' = 0 /\ s_err s' = false /\
+  s_x_ext s' = s_x_ext s /\ s_v_ext s' = s_v_ext s /\ s_x_rep s' = s_x_rep s /\ s_v_rep s' = s_v_rep s /\
+  s_prev_x s' = s_prev_x s /\ s_prev_v s' = s_prev_v s /\ s_prev_ts s' = s_prev_ts s /\ s_ft_rep s' = s_ft_rep s /\
+  s_ekin s' = s_ekin s /\ s_epot s' = s_epot s.
+Proof. exact sleep_inert. Qed.
+Print Assumptions C17_sleep_keeps_state.
+
+(* the states at the awake steps of ANY module run (any schedule origin, any inputs) are the run of the awake inputs alone *)
+Theorem C17_mts_awake_states : forall (c : @config R) (p : @params R) (it0 : Z) (l : list (@input R)) (s : @state R),
+  awake_states c it0 l (mtrace Rops c p it0 s l) = trace Rops c p s (filter (awake_at c it0) l).
+Proof. exact mtrace_awake. Qed.
+Print Assumptions C17_mts_awake_states.
+
+(* a fresh module run over ALL engine steps 0, 1, 2, ... with any time-step factor: at the multiples of the factor the coordinate follows
+   the documented integrator with the slow step Dt = dt * factor, fed with the inputs of those steps only *)
+Theorem C17_mts_run_is_documented_integrator : forall (c : @config R) (p : @params R) (l : list (@input R)),
+  free_cfg c -> (0 < c_tsf c)%Z -> esteps 0 l ->
+  let la := filter (awake_at c 0) l in
+  map obs (awake_states c 0 l (mtrace Rops c p 0 (init_state Rops) l))
+  = doc_run c p (match la with i :: _ => i_x i | [] => 0 end) 0 la.
+Proof. exact mts_run_documented. Qed.
+Print Assumptions C17_mts_run_is_documented_integrator.
+
+(* ---- energy balance with moving atoms and a time-dependent bias force --------------------------------------------- *)
+(* E* = Ek + Ep - Dt^2 F_t^2/(8m) (F_t = total force on the coordinate at step t): exact discrete work-energy identity of one step *)
+Theorem C17_energy_balance_step : forall (c : @config R) (p : @params R) x v X1 fb1 X2 fb2 rnd,
+  p_langevin p = false -> p_m p <> 0 ->
+  let q := doc_step c p x v X1 fb1 rnd in
+  doc_estar c p (fst q) (snd q) X2 fb2 - doc_estar c p x v X1 fb1
+  = 1 / 2 * (fb1 + fb2) * (fst q - x) - 1 / 2 * p_k p * ((x - X1) + (fst q - X2)) * (X2 - X1).
+Proof. exact doc_energy_balance. Qed.
+Print Assumptions C17_energy_balance_step.
+
+(* telescoped over every uninterrupted frictionless run with ANY history of the variable and of the bias force: E* at the last step
+   minus E* at the first = sum of the trapezoidal works (bias force on the coordinate, spring on the moving variable) *)
+Theorem C17_energy_balance_run : forall (c : @config R) (p : @params R) (l : list (@input R)) d,
+  free_cfg c -> (0 < c_tsf c)%Z -> p_langevin p = false -> p_m p <> 0 -> consecutive (c_tsf c) 0 l ->
+  let ls := combine l (map obs (trace Rops c p (init_state Rops) l)) in
+  io_estar c p (last ls d) - io_estar c p (hd d ls) = dwork c p ls.
+Proof. exact run_energy_balance. Qed.
+Print Assumptions C17_energy_balance_run.
+
+(* the reported Ek + Ep exceeds E* by Dt^2 F_t^2/(8m): non-negative, second order in the time step, bounded when the forces are;
+   and Ek - Dt^2 F_t^2/(8m) = 1/2 m v_(t-1/2) v_(t+1/2) *)
+Theorem C17_energy_gap_second_order : forall (c : @config R) (p : @params R) x v X fb Fmax,
+  0 < p_m p -> Rabs (doc_force p x X fb) <= Fmax ->
+  0 <= (doc_ekin c p x v X fb + doc_epot p x X) - doc_estar c p x v X fb <= Dt c ^ 2 * Fmax ^ 2 / (8 * p_m p).
+Proof. exact estar_gap. Qed.
+Print Assumptions C17_energy_gap_second_order.
+
+Theorem C17_modified_kinetic_energy : forall (c : @config R) (p : @params R) x v X fb,
+  p_m p <> 0 ->
+  doc_ekin c p x v X fb - Dt c ^ 2 * doc_force p x X fb ^ 2 / (8 * p_m p)
+  = 1 / 2 * p_m p * v * (v + Dt c * doc_force p x X fb / p_m p).
+Proof. exact doc_estar_half_steps. Qed.
+Print Assumptions C17_modified_kinetic_energy.
+
+(* ---- Langevin: stationary covariance of the scheme in the harmonic case ----------------------------------------- *)
+(* frozen atoms, no bias force: the step is linear in (x - X, v, xi) ... *)
+Theorem C17_langevin_step_linear : forall (c : @config R) (p : @params R) x v X rnd,
+  p_langevin p = true -> p_m p <> 0 ->
+  fst (doc_step c p x v X 0 rnd) - X = A11 c p * (x - X) + A12 c p * v + N1 c p * rnd /\
+  snd (doc_step c p x v X 0 rnd) = A21 c p * (x - X) + A22 c p * v + N2 p * rnd.
+Proof. exact doc_step_linear. Qed.
+Print Assumptions C17_langevin_step_linear.
+
+(* ... and the covariance <(x-X)^2> = kT/k, <(x-X) v_(t-1/2)> = Dt kT/(2m), <v_(t-1/2)^2> = kT/m is a fixed point of the propagation of
+   second moments (cov_step: A S A^T + n n^T for an independent unit-variance Gaussian number), for EVERY time step and friction: the
+   configurational and half-step kinetic temperatures are exactly the target; the on-step velocity behind the reported kinetic energy
+   has variance (kT/m)(1 - h), h = k Dt^2/(4m).  [That cov_step is the second-moment map of the random process is textbook probability,
+   not formalised here.] *)
+Theorem C17_langevin_stationary_covariance : forall (c : @config R) (p : @params R) kT,
+  p_m p <> 0 -> p_k p <> 0 -> p_sigma p ^ 2 = (1 - la c p ^ 2) * p_m p * kT ->
+  let S := (kT / p_k p, Dt c / 2 * (kT / p_m p), kT / p_m p) in
+  cov_step c p S = S /\
+  (let '(Sxx, Sxv, Svv) := S in Svv - lw c p * Sxv + (lw c p / 2) ^ 2 * Sxx) = kT / p_m p * (1 - hfac c p).
+Proof. exact langevin_stationary. Qed.
+Print Assumptions C17_langevin_stationary_covariance.
+
+(* the premise on sigma holds for the parameters computed at initialisation, with kT = kB * extendedTemp *)
+Theorem C17_langevin_sigma_documented : forall c : @config R,
+  c_damping c <> 0 -> 0 <= c_kB c * c_temp c -> 0 <= p_m (init_params Rops PI c) -> 0 <= p_gamma (init_params Rops PI c) * Dt c ->
+  let p := init_params Rops PI c in
+  p_sigma p ^ 2 = (1 - la c p ^ 2) * p_m p * (c_kB c * c_temp c).
+Proof. exact sigma_sq_documented. Qed.
+Print Assumptions C17_langevin_sigma_documented.
+
+(* ---- periodic variable ------------------------------------------------------------------------------------------ *)
+(* one step = the documented step towards the periodic image X + nP of the variable's value nearest to the coordinate (spring force and
+   energy with the shortest periodic difference, C18's metric), then wrapped into [ctr - P/2, ctr + P/2) *)
+Theorem C17_periodic_step : forall (c : @config R) (p : @params R) (s : @state R) (i : @input R) P ctr xe ve,
+  c_refl_lo c = false -> c_refl_up c = false -> c_period c = Some (P, ctr) -> 0 < P ->
+  i_running i = true -> tsf_error c s i = false -> props_xv Rops c s i = (xe, ve) ->
+  let fb := i_fb i / IZR (c_tsf c) in
+  let Xn := near_image P xe (i_x i) in
+  let q := doc_step c p xe ve Xn fb (i_rnd i) in
+  let s' := step Rops c p s i in
+  obs s' = (xe, ve, cvc_wrap Rops ctr P (fst q), snd q, doc_ekin c p xe ve Xn fb, doc_epot p xe Xn) /\
+  s_f s' = IZR (c_tsf c) * (p_k p * (xe - Xn)) + i_fba i /\
+  (exists n : Z, Xn = i_x i + IZR n * P) /\ - P / 2 <= xe - Xn < P / 2 /\
+  ctr - P / 2 <= cvc_wrap Rops ctr P (fst q) < ctr + P / 2 /\ (exists n : Z, cvc_wrap Rops ctr P (fst q) = fst q - IZR n * P) /\
+  s_err s' = false.
+Proof. exact step_periodic_obs. Qed.
+Print Assumptions C17_periodic_step.
 
 (* ---- time origin of the reported total force -------------------------------------------------------------------- *)
 (* engines with lagged total forces: what is stored at step t, and read by the biases at step t+1, is the force that acted on the
@@ -271,23 +385,13 @@ Theorem C17_total_force_lagged : forall (c : @config R) (p : @params R) (s : @st
 Proof. exact ft_lagged. Qed.
 Print Assumptions C17_total_force_lagged.
 
-(* FULL STATEMENT for engines with same-step total forces (false of the code):
-     forall c p s i, c_same_step c = true -> running -> no error ->
-       s_ft_rep (step c p s i) = force acting on the coordinate at this step.
-   The code never assigns the reported total force in that mode: it keeps its initial value (zero) for ever ... *)
-Theorem C17_total_force_same_step_never_set : forall (c : @config R) (p : @params R) (l : list (@input R)) (s : @state R),
-  c_same_step c = true -> s_ft_rep (run Rops c p s l) = s_ft_rep s.
-Proof. exact ft_same_step_run. Qed.
-Print Assumptions C17_total_force_same_step_never_set.
-
-(* ... while the force is not zero (witness replayed on the C++ by the check: known finding) *)
-Theorem C17_total_force_same_step_refuted :
-  exists (c : @config R) (p : @params R) (i : @input R),
-    c_same_step c = true /\ c_subtract c = false /\ i_running i = true /\ tsf_error c (init_state Rops) i = false /\
-    s_ft_rep (step Rops c p (init_state Rops) i) = 0 /\
-    i_fb i / IZR (c_tsf c) + f_spring c p (fst (props_xv Rops c (init_state Rops) i)) (i_x i) = 1.
-Proof. exact ft_same_step_refuted. Qed.
-Print Assumptions C17_total_force_same_step_refuted.
+(* engines with same-step total forces: the reported total force is the system (spring) force on the coordinate at the CURRENT step,
+   whatever the step does (running or not, error or not) [fix-C17-2: it used to stay zero for ever] *)
+Theorem C17_total_force_same_step : forall (c : @config R) (p : @params R) (s : @state R) (i : @input R),
+  c_same_step c = true ->
+  s_ft_rep (step Rops c p s i) = f_spring c p (fst (props_xv Rops c s i)) (i_x i).
+Proof. exact ft_same_step. Qed.
+Print Assumptions C17_total_force_same_step.
 
 (* ---- the premises are satisfiable ------------------------------------------------------------------------------- *)
 Definition ex_c : @config R := mkConfig 1 1 1 16 0 (1 / 2) 2%Z 0 1 false false 1 None false false.     (* factor 2, no boundary *)
@@ -342,9 +446,53 @@ Proof. repeat split; try reflexivity. apply no_jump_self. Qed.
 Example ex_resume_premises :
   let s := run Rops ex_c ex_p (init_state Rops) [ex_i 0 (1 / 2)] in
   i_running (ex_i 2 (1 / 2)) = true /\ tsf_error ex_c s (ex_i 2 (1 / 2)) = false /\ (0 <= i_step (ex_i 2 (1 / 2)))%Z /\
-  List.Forall (fun j => i_running j = true /\ (i_step (ex_i 2 (1 / 2)) < i_step j)%Z) [ex_i 4 (1 / 2)].
+  cont_ok (i_step (ex_i 2 (1 / 2))) true [ex_i 2 (1 / 2); ex_i 2 3; ex_i 4 (1 / 2)].
 Proof.
-  intros s. split; [reflexivity | ]. split; [ | split; [cbn; lia | repeat constructor; cbn; lia]].
-  apply tsf_error_consec. right; left. unfold s, run. cbn [fold_left].
-  rewrite (step_running_eq ex_c ex_p (init_state Rops) (ex_i 0 (1 / 2)) eq_refl eq_refl). reflexivity.
+  intros s. split; [reflexivity | ]. split; [ | split; [cbn; lia | ]].
+  - apply tsf_error_consec. right; left. unfold s, run. cbn [fold_left].
+    rewrite (step_running_eq ex_c ex_p (init_state Rops) (ex_i 0 (1 / 2)) eq_refl eq_refl). reflexivity.
+  - cbn. split; [reflexivity | right]. split; [reflexivity | split; [reflexivity | ]].
+    split; [reflexivity | right]. split; [reflexivity | split; [reflexivity | ]].
+    split; [reflexivity | left]. split; [lia | exact I].
 Qed.
+Example ex_resume_asleep_premises :
+  let s := step Rops ex_c ex_p (init_state Rops) (ex_i 0 (1 / 2)) in
+  s_x_ext s = Some (1 / 2) /\ s_after_restart s = false /\ (0 <= s_prev_ts s < 1)%Z /\ (1 < i_step (ex_i 2 (1 / 2)))%Z /\
+  tsf_error ex_c s (ex_i 2 (1 / 2)) = false.
+Proof.
+  intros s.
+  assert (Hp : props_xv Rops ex_c (init_state Rops) (ex_i 0 (1 / 2)) = (1 / 2, 0)).
+  { rewrite props_first; [ | reflexivity | cbn; lia | reflexivity]. rewrite clamp_free; reflexivity. }
+  destruct (step_free_obs ex_c ex_p (init_state Rops) (ex_i 0 (1 / 2)) (1 / 2) 0 (conj eq_refl (conj eq_refl eq_refl)) eq_refl eq_refl Hp)
+    as (_ & Hx & Hts & _ & Har). fold s in Hx, Hts, Har.
+  split.
+  - rewrite Hx. f_equal. unfold doc_step, doc_force, Dt. cbn. field.
+  - split; [exact Har | ]. rewrite Hts. split; [cbn; lia | ]. split; [cbn; lia | ].
+    apply tsf_error_consec. right; left. rewrite Hts. reflexivity.
+Qed.
+Example ex_mts_premises : esteps 0 [ex_i 0 (1 / 2); ex_i 1 (1 / 2); ex_i 2 (1 / 2)] /\ awake_at ex_c 0 (ex_i 1 (1 / 2)) = false.
+Proof. cbn. repeat split; reflexivity. Qed.
+Example ex_langevin_stationary_premises :
+  let p := mkParams 1 1 (1 / 8) (sqrt ((1 - la ex_c (mkParams 1 1 (1 / 8) 0 true) ^ 2) * 1 * 1)) true in
+  p_m p <> 0 /\ p_k p <> 0 /\ p_sigma p ^ 2 = (1 - la ex_c p ^ 2) * p_m p * 1.
+Proof.
+  cbn zeta. cbn [p_m p_k p_sigma]. split; [lra | split; [lra | ]].
+  unfold la. cbn [p_gamma]. rewrite <- Rsqr_pow2, Rsqr_sqrt; [ring | ].
+  assert (H : exp (- (1 / 8 * Dt ex_c)) ^ 2 <= 1).
+  { assert (0 < exp (- (1 / 8 * Dt ex_c))) by apply exp_pos.
+    assert (exp (- (1 / 8 * Dt ex_c)) <= 1).
+    { pose proof (exp_increasing (- (1 / 8 * Dt ex_c)) 0) as Hi. rewrite exp_0 in Hi. left. apply Hi. unfold Dt. cbn. lra. }
+    nra. }
+  nra.
+Qed.
+Example ex_periodic_premises :
+  let c := mkConfig 1 1 1 16 0 1 1%Z (-1) 1 false false 1 (Some (2, 0)) false false in
+  c_refl_lo c = false /\ c_refl_up c = false /\ c_period c = Some (2, 0) /\ 0 < 2 /\
+  tsf_error c (init_state Rops) (ex_i 0 (1 / 2)) = false /\ props_xv Rops c (init_state Rops) (ex_i 0 (1 / 2)) = (1 / 2, 0).
+Proof.
+  cbn zeta. repeat split; try reflexivity; try lra.
+Qed.
+Example ex_same_step_premise : c_same_step (mkConfig 1 1 1 16 0 1 1%Z 0 1 false false 1 None true false) = true.
+Proof. reflexivity. Qed.
+Example ex_energy_gap_premises : 0 < p_m ex_p /\ Rabs (doc_force ex_p 1 0 0) <= 1.
+Proof. unfold doc_force. cbn. split; [lra | ]. replace (0 - 1 * (1 - 0)) with (- (1)) by ring. rewrite Rabs_Ropp, Rabs_R1. lra. Qed.
